@@ -374,6 +374,14 @@ func derive(rt *rapid.T, c *dcase, d keyderivation.KeysetDeriver, salt []byte, w
 	return s
 }
 
+func xor(b []byte, v byte) []byte {
+	out := bytes.Clone(b)
+	for i := range out {
+		out[i] ^= v
+	}
+	return out
+}
+
 // oneKeyHandle wraps a key into a handle (enabled primary).
 func oneKeyHandle(rt *rapid.T, c *dcase, k key.Key, what string) *keyset.Handle {
 	h, err := tk.HandleFromKey(k)
@@ -558,6 +566,35 @@ func TestDeriveKeyset(t *testing.T) {
 		fresh := derive(rt, c, d2, c.salt, "second deriver object")
 		if diff := sameSnapshot(first, fresh); diff != "" {
 			rt.Fatalf("%v\ntwo derivers of one handle disagree: %s\n  first:%v\n  second:%v", c, diff, first, fresh)
+		}
+		// the caller reuses one salt buffer: derive, overwrite the buffer in place with another salt of
+		// the same length, derive again on the same deriver object; "different salts give different
+		// keys" and determinism are statements about the salt's bytes, not about the slice
+		if len(c.salt) > 0 {
+			buf := bytes.Clone(c.salt)
+			for i := range buf {
+				buf[i] ^= 0x33 // a salt this deriver object has not seen yet
+			}
+			h1, err := d.DeriveKeyset(buf)
+			if err != nil {
+				rt.Fatalf("%v\nDeriveKeyset(%x): %v", c, buf, err)
+			}
+			s1, _ := snap(h1)
+			for i := range buf {
+				buf[i] ^= 0x5A
+			}
+			hb, err := d.DeriveKeyset(buf)
+			if err != nil {
+				rt.Fatalf("%v\nDeriveKeyset(%x): %v", c, buf, err)
+			}
+			sb, _ := snap(hb)
+			want := derive(rt, c, d2, buf, "reused buffer, other deriver object")
+			if diff := sameSnapshot(sb, want); diff != "" {
+				rt.Fatalf("%v\nDeriveKeyset(%x) through a salt buffer that held %x at the previous call differs from a fresh derivation of the same salt: %s", c, buf, xor(buf, 0x5A), diff)
+			}
+			if s1 != nil && sameSnapshot(s1, sb) == "" {
+				rt.Fatalf("%v\nsalts %x and %x (one buffer, overwritten in place) give the same derived keyset", c, xor(buf, 0x5A), buf)
+			}
 		}
 		if len(c.salt) == 0 { // nil and empty are equal salts
 			var alt []byte
